@@ -95,10 +95,24 @@ pub fn run_jobs(jobs: Vec<Value>, cfg: &PoolCfg) -> Vec<Value> {
     // confirmed on its own, two at a time, with six times the limit (at least 120 s), before it is reported
     let late: Vec<usize> = (0..results.len()).filter(|i| results[*i].get("timeout").is_some()).collect();
     if !late.is_empty() {
-        let again = PoolCfg { workers: 2, batch: 1, timeout: (cfg.timeout * 6).max(Duration::from_secs(120)), envs: cfg.envs.clone() };
-        let rs = run_jobs_once(late.iter().map(|i| jobs[*i].clone()).collect(), &again);
-        for (i, r) in late.into_iter().zip(rs.into_iter()) {
-            results[i] = r;
+        let again = PoolCfg { workers: 3, batch: 1, timeout: (cfg.timeout * 6).max(Duration::from_secs(120)), envs: cfg.envs.clone() };
+        // the first six are confirmed three at a time on an otherwise idle pool; when every one of them still does not
+        // finish, the machine was not the reason and the others stand as they are (code under test that hangs on one
+        // input usually hangs on many: confirming hundreds of them one by one would take hours); when one of them does
+        // finish, the limit was too tight for this machine and all the others are confirmed as well
+        let first: Vec<usize> = late.iter().take(6).cloned().collect();
+        let rs = run_jobs_once(first.iter().map(|i| jobs[*i].clone()).collect(), &again);
+        let all_still_late = rs.iter().all(|r| r.get("timeout").is_some());
+        for (i, r) in first.iter().zip(rs.into_iter()) {
+            results[*i] = r;
+        }
+        if late.len() > 6 && !all_still_late {
+            let rest: Vec<usize> = late.iter().skip(6).cloned().collect();
+            let again = PoolCfg { workers: 4, ..again };
+            let rs = run_jobs_once(rest.iter().map(|i| jobs[*i].clone()).collect(), &again);
+            for (i, r) in rest.into_iter().zip(rs.into_iter()) {
+                results[i] = r;
+            }
         }
     }
     results
